@@ -123,21 +123,49 @@ Proof.
     (constructor; [cbn [In]; intros [E|[]]; discriminate E|constructor; [intros []|constructor]]).
 Qed.
 
+(* the specification of an INTEGER variable's domain: the integers between the bounds *)
+Definition within_bounds (lb ub : Qc) (z : Z) : Prop :=
+  (lb <= Q2Qc (inject_Z z))%Qc /\ (Q2Qc (inject_Z z) <= ub)%Qc.
+
 Definition in_vdom (d : vdom) (z : Z) : Prop :=
   match d with
   | DBin => z = 0%Z \/ z = 1%Z
   | DSpin => z = (-1)%Z \/ z = 1%Z
   | DInt lb ub => (lb <= z <= ub)%Z
-  | DIntQ lb ub => (qtrunc lb <= z <= qtrunc (ub + 1)%Qc - 1)%Z      (* as enumerated, see the refuted statement below *)
+  | DIntQ lb ub => within_bounds lb ub z
   end.
 
-(* the specification of an INTEGER variable's domain *)
-Definition within_bounds (lb ub : Qc) (z : Z) : Prop :=
-  (lb <= Q2Qc (inject_Z z))%Qc /\ (Q2Qc (inject_Z z) <= ub)%Qc.
+Lemma qfloor_spec q z : (z <= qfloor q)%Z <-> (Q2Qc (inject_Z z) <= q)%Qc.
+Proof.
+  unfold Qcle, qfloor. cbn [this Q2Qc]. rewrite Qred_correct. unfold Qle. cbn [Qnum Qden inject_Z].
+  destruct q as [[n d] Hc]. cbn [this Qnum Qden].
+  pose proof (Z.mul_div_le n (Zpos d) (eq_refl : (0 < Zpos d)%Z)) as H1. split; intros H.
+  - nia.
+  - apply Z.div_le_lower_bound; [reflexivity|lia].
+Qed.
+
+Lemma qceil_spec q z : (qceil q <= z)%Z <-> (q <= Q2Qc (inject_Z z))%Qc.
+Proof.
+  unfold Qcle, qceil. cbn [this Q2Qc]. rewrite Qred_correct. unfold Qle. cbn [Qnum Qden inject_Z].
+  destruct q as [[n d] Hc]. cbn [this Qnum Qden].
+  pose proof (Z.mul_div_le (- n) (Zpos d) (eq_refl : (0 < Zpos d)%Z)) as H1. split; intros H.
+  - nia.
+  - assert (- z <= (- n) / Zpos d)%Z; [apply Z.div_le_lower_bound; [reflexivity|lia]|lia].
+Qed.
+
+(* ExactCQMSolver, INTEGER variable with arbitrary (also non-integral) bounds: every enumerated
+   value lies within the bounds and every integer within the bounds is enumerated *)
+Theorem cqm_integer_domain_within_bounds lb ub z :
+  In z (dom_values (DIntQ lb ub)) <-> within_bounds lb ub z.
+Proof.
+  cbn [dom_values]. rewrite zrange_In. unfold within_bounds.
+  rewrite <- qfloor_spec, <- qceil_spec. reflexivity.
+Qed.
 
 Lemma dom_values_In d z : In z (dom_values d) <-> in_vdom d z.
 Proof.
-  destruct d; cbn [dom_values in_vdom In]; [| |apply zrange_In|apply zrange_In]; intuition congruence.
+  destruct d; [| |apply zrange_In|apply cqm_integer_domain_within_bounds];
+    cbn [dom_values in_vdom In]; intuition congruence.
 Qed.
 
 (* ------------------------------------------------------------------ *)
@@ -328,16 +356,6 @@ Proof.
   split; [apply cqm_cases_NoDup|]. split; [apply cqm_cases_In|].
   intros row. cbn [cqm_row_ok]. split; intros H; induction H; constructor; try assumption;
     apply dom_values_In; assumption.
-Qed.
-
-(* REFUTED: with a non-integral lower bound between 0 and 1 the enumeration of an INTEGER
-   variable starts at int(lb) = 0, which is below the bound (int() truncates toward zero
-   where a ceiling is needed).  Negative fractional bounds and fractional upper bounds are fine. *)
-Theorem cqm_integer_domain_within_bounds_refuted :
-  exists (lb ub : Qc) (z : Z), In z (dom_values (DIntQ lb ub)) /\ ~ within_bounds lb ub z.
-Proof.
-  exists (qc 1 2), (qc 5 2), 0%Z. split; [vm_compute; left; reflexivity|].
-  intros [H _]. vm_compute in H. apply H. reflexivity.
 Qed.
 
 (* ------------------------------------------------------------------ *)
